@@ -64,7 +64,8 @@ def text_of(desc, fmt, key_style, graph_id=None, drop_id_of=None):
 
 
 def gen_op(rng, gids, live):
-    g = rng.choice(gids)
+    # clones made under a new id are graphs like any other: they are addressed by later operations as well
+    g = rng.choice(gids) if rng.random() < 0.8 else rng.choice(['clone-a', 'clone-b'])
     k = rng.randrange(100)
     n, a, b = rng.choice(NIDS), rng.choice(NIDS), rng.choice(NIDS)
     if k < 14:
@@ -202,6 +203,18 @@ def run_history(ctx, store, imp, cls, hist):
             ctx.violation(f'C04/{op["op"]}-node-count', 'stored nodes = sum over graphs; every node has a NodeID',
                           dict(w, total=facts['total_nodes'], by_graph={g: len(c['nodes']) for g, c in after.items()}))
             return False
+        # ---- a node added to a graph takes a new internal identity: everything the graph held before is still there
+        if exc is None and op['op'] == 'add_node':
+            ctx.count('add-node-own-graph-checked')
+            b, a = before.get(op['g']) or {'nodes': {}, 'edges': {}}, after.get(op['g']) or {'nodes': {}, 'edges': {}}
+            lost = sorted(set(b['nodes']) - set(a['nodes']))
+            changed = sorted(k for k in set(b['nodes']) & set(a['nodes']) if b['nodes'][k] != a['nodes'][k])
+            extra = sorted(set(a['nodes']) - set(b['nodes']) - {op['nid']})
+            if lost or changed or extra or a['edges'] != b['edges']:
+                ctx.violation('C04/add_node-takes-over-existing-identity', 'no two stored nodes ever share an internal identity: a node added '
+                              'to a graph leaves the nodes and edges the graph already had exactly as they were',
+                              dict(w, lost=lost, changed=changed, extra=extra, edges_changed=a['edges'] != b['edges']))
+                return False
         # ---- imports land complete (collision of internal keys would show as a deficit)
         if exc is None and op['op'] in ('import_string', 'import_direct', 'delete_then_reimport'):
             # one-graph-per-store flavour: an id that was ever touched (even by a delete, which creates the emptied entry)
@@ -282,6 +295,16 @@ def run(ctx):
         # make sure graphs exist early on
         for j, g in enumerate(gids[:3]):
             hist.insert(j, {'op': 'import_string', 'g': g, 'desc': gen_small(rng), 'fmt': rng.choice(['graphml', 'json']), 'keys': rng.randrange(3)})
+        if rng.random() < 0.35:
+            # a graph that lost a node is cloned and the clone grows: the clone allocates new internal identities of its own
+            g = rng.choice(gids[:3])
+            at = rng.randrange(3, len(hist) + 1)
+            to = rng.choice(['clone-a', 'clone-b'])
+            hist[at:at] = [{'op': 'delete_node', 'g': g, 'nid': rng.choice(NIDS[:2])},
+                           {'op': 'clone', 'g': g, 'to': to},
+                           {'op': 'add_node', 'g': to, 'nid': 'grown-' + rng.choice(NIDS), 'label': rng.choice(rawgraph.CLASSES),
+                            'props': rawgraph.gen_props(rng, 2)}]
+            ctx.count('hist:shrunk-graph-cloned-and-grown')
         ctx.count('store:' + store)
         run_history(ctx, store, imp, cls, hist)
         if i < 1:
